@@ -1147,6 +1147,20 @@ func (env *Env) callExpr(x *ast.CallExpr) EVal {
 			env.fail("m(x, \"Method\") needs an interface value and a method name")
 		}
 		name := strings.Trim(lit.Value, "\"")
+		if n, ok := v.T.(*types.Named); ok && n.Obj().Pkg() != nil {
+			if ic := env.tr.P.ifaceC[n.Obj().Pkg().Path()+"."+n.Obj().Name()+"."+name]; ic != nil && ic.Pure {
+				ms := types.NewMethodSet(v.T)
+				for i := 0; i < ms.Len(); i++ {
+					if ms.At(i).Obj().Name() == name {
+						sg := ms.At(i).Type().(*types.Signature)
+						if sg.Params().Len() == 0 && sg.Results().Len() == 1 {
+							rt := sg.Results().At(0).Type()
+							return EVal{V: env.tr.pureAccessorVal(env.curState(), name, v.V, rt), T: rt}
+						}
+					}
+				}
+			}
+		}
 		if !pureAccessor(name) {
 			env.fail("m(): %s is not a modelled accessor", name)
 		}
